@@ -2,7 +2,7 @@
    Statements only (copied from the lemma libraries); every proof is a bare
    `exact`; see the cited files in coq/proofs for the proofs. *)
 From Coq Require Import List NArith ZArith Bool Arith Sorting.Sorted Sorting.Permutation.
-From D2P Require Import Str Err Xml TableTypes Tables Fmt NumFmt Bullets Merge Collector Walk Iter Output ShapeFacts TokFacts FrameFacts BulletsFacts NumFmtFacts MergeFacts TotalFacts.
+From D2P Require Import Str Err Xml TableTypes Tables Fmt NumFmt Bullets Merge Collector Walk Iter Output ShapeFacts TokFacts FrameFacts BulletsFacts NumFmtFacts MergeFacts TotalFacts TablesFacts.
 Import ListNotations.
 
 (* for EVERY table-free, comment-range-free element tree: if the evaluation of each single element succeeds (required ids present, numbers parse, check-box and drop-down values known, formatting renders to non-blank tags), the whole walk succeeds - exceptions never emerge from the state machine, whatever the nesting *)
@@ -61,3 +61,15 @@ Theorem C13_letters_total :
   forall p, exists s, lower_letter (Zpos p) = Ok s.
 Proof. exact letters_total. Qed.
 Print Assumptions C13_letters_total.
+
+(* tie to the source: the element handlers modelled in Walk.open_tag are exactly the _open_* methods that TagRunner defines in /repo today (list regenerated from the source on every run) *)
+Theorem C13_open_handlers_match_source :
+  sort_strs modelled_open_methods = sort_strs open_methods.
+Proof. exact open_handlers_match_source. Qed.
+Print Assumptions C13_open_handlers_match_source.
+
+(* and likewise the _close_* methods *)
+Theorem C13_close_handlers_match_source :
+  sort_strs modelled_close_methods = sort_strs close_methods.
+Proof. exact close_handlers_match_source. Qed.
+Print Assumptions C13_close_handlers_match_source.
